@@ -429,8 +429,12 @@ def evaluate(run, want=None):
                 I.v("C12", "round %d cluster %d: covariance shape/NaN pattern differs from the %s estimator" % (r, k, "biased" if biased else "unbiased"))
             elif finite.all():
                 # rounding of a two-pass estimate: the mean is exact to eps*|x|, so the centred data carry an error eps*scale
-                dmax = float(np.max(np.abs(Xk - mu[None, :])))
-                atol = 1e-9 * float(np.max(np.abs(S))) + 256 * gauss.EPS * scale * max(dmax, 1e-300) + 1e-300
+                # (entry by entry, with each sensor's own magnitude: sensors of one series may differ by many orders of magnitude)
+                Dk = np.abs(np.asarray(Xk, dtype=np.float64) - mu[None, :])
+                dcol = np.max(Dk, axis=0)
+                xcol = np.max(np.abs(np.asarray(Xk, dtype=np.float64)), axis=0)
+                sd = np.sqrt(np.abs(np.diag(S)))
+                atol = 1e-9 * np.outer(sd, sd) + 256 * gauss.EPS * (np.outer(xcol, dcol) + np.outer(dcol, xcol)) + 1e-300
                 if not np.all(np.abs(got_S - S) <= atol + 1e-9 * np.abs(S)):
                     I.v("C12", "round %d cluster %d (%d windows): covariance is not X^T X/(n-%d) of its own windows (max dev %.3g, scale %.3g)" % (
                         r, k, len(mem), 0 if biased else 1, float(np.max(np.abs(got_S - S))), float(np.max(np.abs(S)))))
